@@ -607,3 +607,75 @@ func reachAvoid(from, to ssa.Instruction, kill func(ssa.Instruction) bool) bool 
 	}
 	return false
 }
+
+// rootOf walks an access path back to its base value (parameter, global, allocation, call result …).
+func rootOf(v ssa.Value) ssa.Value {
+	for i := 0; i < 64; i++ {
+		switch x := v.(type) {
+		case *ssa.FieldAddr:
+			v = x.X
+		case *ssa.Field:
+			v = x.X
+		case *ssa.IndexAddr:
+			v = x.X
+		case *ssa.Index:
+			v = x.X
+		case *ssa.Lookup:
+			v = x.X
+		case *ssa.UnOp:
+			if x.Op != token.MUL {
+				return v
+			}
+			if a, ok := x.X.(*ssa.Alloc); ok {
+				if sv := singleStore(a); sv != nil {
+					v = sv
+					continue
+				}
+				return a
+			}
+			v = x.X
+		case *ssa.ChangeType:
+			v = x.X
+		case *ssa.Convert:
+			v = x.X
+		case *ssa.MakeInterface:
+			v = x.X
+		case *ssa.Extract:
+			v = x.Tuple
+		case *ssa.Next:
+			v = x.Iter
+		case *ssa.Range:
+			v = x.X
+		case *ssa.Slice:
+			v = x.X
+		case *ssa.TypeAssert:
+			v = x.X
+		case *ssa.Alloc:
+			if sv := singleStore(x); sv != nil {
+				v = sv
+				continue
+			}
+			return v
+		case *ssa.Call:
+			// accessor / method on a node: follow the receiver
+			if f := x.Call.StaticCallee(); f != nil && f.Signature.Recv() != nil && len(x.Call.Args) >= 1 && f.Pkg != nil && f.Pkg.Pkg.Path() == pAst {
+				v = x.Call.Args[0]
+				continue
+			}
+			if f := x.Call.StaticCallee(); f != nil && f.Name() == "NodeStartPos" && len(x.Call.Args) == 1 {
+				v = x.Call.Args[0]
+				continue
+			}
+			return v
+		default:
+			return v
+		}
+	}
+	return v
+}
+
+// isAstTyped: the type is (a pointer to / slice of) something declared in pkg/ast.
+func isAstTyped(t types.Type) bool {
+	s := t.String()
+	return strings.Contains(s, "/pkg/ast.")
+}
